@@ -49,6 +49,62 @@ type shared struct {
 	freshPub  []string
 	freshCtr  atomic.Int64
 	group     int64
+	// round 9: fresh objects of every key type, and the first USE of each (sign, verify, derive a shared secret, encode) by a small group
+	// of goroutines at once; the expected answer was computed beforehand, sequentially, on a twin object built from the same bytes
+	freshObjs   []freshObj
+	freshObjCtr atomic.Int64
+}
+
+type freshObj struct {
+	kind  int
+	priv  *secec.PrivateKey
+	pub   *secec.PublicKey
+	spriv *bitcoin.SchnorrPrivateKey
+	spub  *bitcoin.SchnorrPublicKey
+	dig   []byte
+	ent   []byte
+	sig   []byte
+	want  string
+}
+
+const freshObjKinds = 8
+
+// useFresh performs the kind's first-use operation on o (or on its twin when building the expectation).
+func useFresh(kind int, priv *secec.PrivateKey, pub *secec.PublicKey, spriv *bitcoin.SchnorrPrivateKey, spub *bitcoin.SchnorrPublicKey, peer *secec.PublicKey, dig, ent, sig []byte) string {
+	switch kind {
+	case 0: // hedged signature with given entropy: a deterministic function of (key, digest, entropy)
+		b, err := priv.Sign(&fixedReader{append([]byte{}, ent...)}, dig, &secec.ECDSAOptions{Encoding: secec.EncodingCompact})
+		if err != nil {
+			return "err"
+		}
+		return hx(b)
+	case 1:
+		b, err := priv.Sign(secec.RFC6979SHA256(), dig, &secec.ECDSAOptions{Encoding: secec.EncodingCompactRecoverable})
+		if err != nil {
+			return "err"
+		}
+		return hx(b)
+	case 2:
+		b, err := priv.ECDH(peer)
+		if err != nil {
+			return "err"
+		}
+		return hx(b)
+	case 3:
+		return strconv.FormatBool(pub.Verify(dig, sig, &secec.ECDSAOptions{Encoding: secec.EncodingCompact}))
+	case 4:
+		return hx(pub.ASN1Bytes()) + hx(pub.CompressedBytes()) + hx(pub.Bytes()) + hx(pub.Point().CompressedBytes())
+	case 5:
+		b, err := spriv.Sign(&fixedReader{append([]byte{}, ent...)}, dig, nil)
+		if err != nil {
+			return "err"
+		}
+		return hx(b)
+	case 6:
+		return strconv.FormatBool(spub.Verify(dig, sig))
+	default:
+		return hx(spub.Bytes()) + hx(spub.Point().UncompressedBytes())
+	}
 }
 
 func optsImage(o *secec.ECDSAOptions) []byte {
@@ -255,6 +311,17 @@ func concOps() []concOp {
 			}
 			return "bad"
 		}},
+		{"fresh_obj_first_use", func(sh *shared, arg int) string { // the first USE of a fresh key object of any type, by a small group at once
+			i := int((sh.freshObjCtr.Add(1) - 1) / 8)
+			if i >= len(sh.freshObjs) {
+				return "ok"
+			}
+			o := &sh.freshObjs[i]
+			if got := useFresh(o.kind, o.priv, o.pub, o.spriv, o.spub, sh.peer, o.dig, o.ent, o.sig); got != o.want {
+				return "bad kind " + strconv.Itoa(o.kind)
+			}
+			return "ok"
+		}},
 		{"sign_shared_opts", func(sh *shared, arg int) string { // every goroutine passes the SAME options object
 			sig, err := sh.priv.Sign(secec.RFC6979SHA256(), msg(arg), sh.opts)
 			if err != nil {
@@ -391,6 +458,45 @@ func concRun(c *ctx, hammer bool) {
 		dd := add(randBig(rng, add(bigN, -1)), 1)
 		sh.freshKeys = append(sh.freshKeys, privFrom(dd)) // (constructed, never looked at)
 		sh.freshPub = append(sh.freshPub, hx(mulG(dd).UncompressedBytes()))
+	}
+	for i := 0; i < c.scale(1600, 4800); i++ {
+		dd := add(randBig(rng, add(bigN, -1)), 1)
+		kb := be32(dd)[:]
+		o := freshObj{kind: i % freshObjKinds, dig: randBytes(rng, 32), ent: randBytes(rng, 32)}
+		twinPriv := privFrom(dd)
+		twinS, err := bitcoin.NewSchnorrPrivateKey(kb)
+		if err != nil {
+			panic(err)
+		}
+		switch o.kind {
+		case 0, 1, 2:
+			o.priv = privFrom(dd)
+		case 3, 4:
+			o.sig, err = twinPriv.Sign(&fixedReader{append([]byte{}, o.ent...)}, o.dig, &secec.ECDSAOptions{Encoding: secec.EncodingCompact})
+			if err != nil {
+				panic(err)
+			}
+			enc := twinPriv.PublicKey().CompressedBytes()
+			if i%2 == 0 {
+				enc = twinPriv.PublicKey().Bytes()
+			}
+			if o.pub, err = secec.NewPublicKey(enc); err != nil {
+				panic(err)
+			}
+		case 5:
+			if o.spriv, err = bitcoin.NewSchnorrPrivateKey(kb); err != nil {
+				panic(err)
+			}
+		default:
+			if o.sig, err = twinS.Sign(&fixedReader{append([]byte{}, o.ent...)}, o.dig, nil); err != nil {
+				panic(err)
+			}
+			if o.spub, err = bitcoin.NewSchnorrPublicKey(twinS.PublicKey().Bytes()); err != nil {
+				panic(err)
+			}
+		}
+		o.want = useFresh(o.kind, twinPriv, twinPriv.PublicKey(), twinS, twinS.PublicKey(), sh.peer, o.dig, o.ent, o.sig)
+		sh.freshObjs = append(sh.freshObjs, o)
 	}
 	sh.opts = &secec.ECDSAOptions{Encoding: secec.EncodingCompact}
 	optsAtStart := optsImage(sh.opts)
